@@ -32,7 +32,7 @@ REQUIRED = [
     ("liquid/context.py", "RenderContext.get"),
     ("liquid/builtin/filters/misc.py", "default"),
 ]
-MIN_COUNTERS = {"undefined_created_default": 500, "strict_succeeded": 100, "strict_raised_UndefinedError": 100, "must_raise_probes": 400}
+MIN_COUNTERS = {"undefined_created_default": 500, "strict_succeeded": 100, "strict_raised_UndefinedError": 100, "must_raise_probes": 400, "implicit_environment_probes": 30}
 
 CREATED = {"n": 0}
 
@@ -86,6 +86,26 @@ def judge(ctx: core.Ctx, case: dict[str, Any]) -> None:
             ctx.count("probe_not_parseable_skipped")  # e.g. a bracketed root as a filter argument: not this property's subject
             return
         ctx.count("must_raise_probes")
+        if case.get("implicit") and not o.ok and o.err_class == "UndefinedError":
+            # package-level API: liquid.Template(source, undefined=StrictUndefined) uses a memoised implicit environment; a template made
+            # with the default undefined type in between (and one before) must not change what this one does
+            import liquid
+
+            liquid.Template("{{ a }}")
+            t = drv.call(liquid.Template, case["source"], undefined=U.StrictUndefined)
+            liquid.Template("{{ b }}")
+            oi = drv.render(t.value, data) if t.ok else t
+            td = drv.call(liquid.Template, case["source"])
+            od = drv.render(td.value, data) if td.ok else td
+            ctx.count("implicit_environment_probes")
+            if oi.ok or oi.err_class != "UndefinedError":
+                ctx.evaluations += 1
+                ctx.violation("strict-does-not-raise:implicit-environment-shared-with-default-undefined", f"liquid.Template({case['source']!r}, undefined=StrictUndefined), with default templates made before and after it, gave {oi.brief()} instead of UndefinedError")
+                return
+            if not od.ok and od.err_class == "UndefinedError":
+                ctx.evaluations += 1
+                ctx.violation("default-raises:implicit-environment-shared-with-strict-undefined", f"liquid.Template({case['source']!r}) made after a StrictUndefined template raised UndefinedError")
+                return
         if o.ok or o.err_class != "UndefinedError":
             ctx.evaluations += 1
             ctx.violation(f"strict-does-not-raise:{case['probe']}", f"StrictUndefined: {case['source']!r} gave {o.brief()} instead of UndefinedError")
@@ -194,7 +214,7 @@ def cases(ctx: core.Ctx):
             k += 1
             if k % ctx.nshards != ctx.shard:
                 continue
-            yield {"source": t.replace("@", path), "data": V.enc(PROBE_DATA), "probe": f"{use}:{path_class(path)}", "async": k % 5 == 0}
+            yield {"source": t.replace("@", path), "data": V.enc(PROBE_DATA), "probe": f"{use}:{path_class(path)}", "async": k % 5 == 0, "implicit": k % 6 == 0 and "liquid" not in t}
     rng = ctx.rng("cases")
     for _ in range(ctx.budget(5000, 400_000)):
         yield gen_case(rng)
